@@ -3,6 +3,8 @@ use std::time::Instant;
 
 use crate::runner::Ctx;
 
+pub mod c01;
+pub mod c02;
 pub mod c18;
 
 pub struct Entry {
@@ -12,6 +14,8 @@ pub struct Entry {
 }
 
 pub const REGISTRY: &[Entry] = &[
+    Entry { id: "C01", run: c01::run, replay: c01::replay },
+    Entry { id: "C02", run: c02::run, replay: c02::replay },
     Entry { id: "C18", run: c18::run, replay: c18::replay },
 ];
 
@@ -32,4 +36,32 @@ pub fn load_case(path: &str) -> serde_json::Value {
         }
     };
     v.get("case").cloned().unwrap_or(v)
+}
+
+/// common tail of the `replay` entry points
+pub fn report_replay(
+    id: &str,
+    path: &str,
+    res: Result<Result<crate::runner::CaseInfo, crate::runner::Failure>, String>,
+) -> i32 {
+    match res {
+        Err(e) => {
+            eprintln!("cannot replay {path}: {e}");
+            2
+        }
+        Ok(Ok(_)) => {
+            println!("{id} replay: property holds on this case");
+            0
+        }
+        Ok(Err(f)) => {
+            let known = crate::runner::load_known(id);
+            if let Some(k) = known.iter().find(|k| k.signature == f.signature) {
+                println!("KNOWN-FINDING: property={id} {} [signature={}]", k.what, k.signature);
+                return 0;
+            }
+            println!("  failing: signature={} :: {}", f.signature, f.detail);
+            println!("VIOLATION property={id} replay={path}");
+            1
+        }
+    }
 }
